@@ -126,7 +126,7 @@ func (l *lawRun) wholeLaws(x *shadow) {
 		l.unchanged("sharing:rc:none:source", X, x, "ReverseComplement(false) changed its source", ctx)
 		// second complement computed on a rebuilt object (no cached link involved)
 		y := snapshot(Y)
-		if v, ok := obsAnn(Y)[pmKey].(map[string]int); ok {
+		if v, ok := asIntMap(obsAnn(Y)[pmKey]); ok {
 			for k, p := range v {
 				if m, ok := ref.ParseMismatchKey(k); ok {
 					m.Pos = p
@@ -762,7 +762,7 @@ func adopt(D *obiseq.BioSequence, d *shadow, withFeat bool) *shadow {
 		return d
 	}
 	s := snapshot(D)
-	if v, ok := obsAnn(D)[pmKey].(map[string]int); ok {
+	if v, ok := asIntMap(obsAnn(D)[pmKey]); ok {
 		s.pm = []ref.Mismatch{}
 		for k, p := range v {
 			if m, ok := ref.ParseMismatchKey(k); ok {
